@@ -9,3 +9,5 @@ import Oas3Model.Props.C09
 import Oas3Model.Props.C10
 import Oas3Model.Props.C11
 import Oas3Model.Props.C20
+import Oas3Model.Props.C12
+import Oas3Model.Props.C17
